@@ -78,17 +78,17 @@ ASSUME_D = [
 
 # property -> prog divergence kinds: (kind prefix, program kind or None)
 PROG_KINDS = {
-    "C02": [("args", "flow"), ("results", "flow"), ("calls", "flow"), ("order", "flow"), ("agree", None), ("topo", None), ("deps", None)],
+    "C02": [("args", "flow"), ("results", "flow"), ("calls", "flow"), ("order", "flow"), ("agree", None), ("topo", None), ("deps", None), ("cancel", "flow")],
     "C01": [("deps", None), ("order", None)],
     "C03": [("maxin", None), ("gids", None)],
     "C04": [("crash", None), ("ret", None)],
     "C05": [("crash", None)],
     "C06": [("quiesce", None)],
-    "C07": [("ret", None), ("results", "flow"), ("calls", "flow"), ("deps", None)],
-    "C08": [("ret", "par"), ("calls", "par")],
-    "C09": [("ctxseen", None)],
-    "C10": [("calls", "par"), ("args", "par"), ("ret", "par"), ("order", "par")],
-    "C11": [("calls", "flow"), ("args", "flow"), ("results", "flow"), ("deps", None), ("order", "flow")],
+    "C07": [("ret", None), ("results", "flow"), ("calls", "flow"), ("deps", None), ("cancel", "flow")],
+    "C08": [("ret", "par"), ("calls", "par"), ("cancel", "par")],
+    "C09": [("ctxseen", None), ("cancel", None)],
+    "C10": [("calls", "par"), ("args", "par"), ("ret", "par"), ("order", "par"), ("cancel", "par")],
+    "C11": [("calls", "flow"), ("args", "flow"), ("results", "flow"), ("deps", None), ("order", "flow"), ("cancel", "flow")],
     "C13": [("static.parses", None), ("static.typechecks", None), ("static.directives", None), ("toolpanic", None)],
     "C14": [("accept", None), ("diag", None)],
     "C15": [("evalorder", None)],
